@@ -155,6 +155,44 @@ fn prelude_program(f: &str, val: &str) -> Option<String> {
     })
 }
 
+/// main hits a failing `!` (or, for contrast, finishes after a failing `?` was handled) while tasks are alive and
+/// print in a loop.  (name, source, expected main lines, expected outcome kind, number of tasks)
+fn task_templates() -> Vec<(String, String, Vec<String>, String, usize)> {
+    let fns = "fn lookup(key: int) -> option<int> {\n  if key < 3 { option.some(key * 10) } else { option.none }\n}\n\
+        fn parse(n: int) -> result<int, string> {\n  if n >= 0 { result.ok(n) } else { result.err(\"negative\") }\n}\n\
+        fn via(k: int) -> int {\n  lookup(k)! + 1\n}\n\
+        fn tryit(k: int) -> option<int> {\n  let v = lookup(k)?\n  println(\"m:after-try\")\n  option.some(v)\n}\n";
+    let mut v = vec![];
+    for (tn, ntasks, unbounded) in [("one-bounded", 1usize, false), ("two-bounded", 2, false), ("one-unbounded", 1, true), ("two-mixed", 2, true)] {
+        let mut tasks = String::new();
+        for t in 0..ntasks {
+            if unbounded && t == 0 {
+                tasks.push_str(&format!("task {{\n  var i = 0\n  while true {{\n    println(\"t{t}:\" .. i)\n    i = i + 1\n  }}\n}}\n"));
+            } else {
+                tasks.push_str(&format!("task {{\n  for i in 300 {{\n    println(\"t{t}:\" .. i)\n  }}\n}}\n"));
+            }
+        }
+        for (fname, fail_line) in [
+            ("unwrap-none", "println(\"m:c=\" .. lookup(5)!)"),
+            ("unwrap-err", "println(\"m:c=\" .. parse(0 - 4)!)"),
+            ("unwrap-via-call", "println(\"m:c=\" .. via(9))"),
+        ] {
+            let src = format!("{fns}{tasks}println(\"m:a=\" .. lookup(1)!)\nprintln(\"m:b=\" .. parse(7)!)\nprintln(\"m:before\")\n{fail_line}\nprintln(\"m:unreachable\")\n");
+            v.push((format!("{tn}/{fname}"), src, vec!["m:a=10".into(), "m:b=7".into(), "m:before".into()], "error:panic".to_string(), ntasks));
+        }
+        // contrast: the failing `?` makes `tryit` return none; main goes on and finishes
+        let src = format!("{fns}{tasks}println(\"m:a=\" .. lookup(1)!)\nprintln(\"m:r=\" .. tryit(7))\nprintln(\"m:s=\" .. tryit(2))\nprintln(\"m:before\")\n");
+        v.push((
+            format!("{tn}/try-contrast"),
+            src,
+            vec!["m:a=10".into(), "m:r=none".into(), "m:after-try".into(), "m:s=some(20)".into(), "m:before".into()],
+            "done".to_string(),
+            ntasks,
+        ));
+    }
+    v
+}
+
 fn main() {
     let mut ctx = Ctx::from_env("C23");
 
@@ -169,6 +207,44 @@ fn main() {
                 "{name}: `?`/`!` does not follow option/result semantics: outcome {got_kind} output {:?}, expected {kind} {:?}\n{src}",
                 r.out, exp
             ));
+        }
+    }
+
+    // ---- (1b) `!` / `?` in main while tasks are alive: the host is serviced exactly as abra_cli does (run a slice;
+    // Done or MainThreadError end the run; otherwise every thread's pending host call is served).  After main's last
+    // line a task can print at most one line per slice (it then waits for the host), and main needs at most ~60 more
+    // steps to reach the panic / the end: so at most `tasks * (60 / budget + 2)` task lines may follow.
+    let tts = task_templates();
+    let budgets_t: [u32; 4] = [100, 1000, 7, 1];
+    let tres = par_map(&tts, |(_, src, _, _, _)| {
+        budgets_t.iter().map(|b| run_program_opts(src, &RunOpts { budgets: vec![*b], max_steps: 600_000, files: vec![] })).collect::<Vec<_>>()
+    });
+    for ((name, src, main_lines, kind, ntasks), rs) in tts.iter().zip(tres) {
+        let mut bad: Option<String> = None;
+        for (b, r) in budgets_t.iter().zip(rs.iter()) {
+            let lines: Vec<&str> = r.out.lines().collect();
+            let mains: Vec<&str> = lines.iter().filter(|l| l.starts_with("m:")).cloned().collect();
+            let last_main = lines.iter().rposition(|l| l.starts_with("m:"));
+            let after = last_main.map(|i| lines.len() - 1 - i).unwrap_or(lines.len());
+            let allowed = ntasks * (60 / *b as usize + 2);
+            if &r.outcome.tag() != kind {
+                bad = Some(format!("budget {b}: outcome {} (expected {kind}) after {} output lines", r.outcome.tag(), lines.len()));
+            } else if mains != main_lines.iter().map(|s| s.as_str()).collect::<Vec<_>>() {
+                bad = Some(format!("budget {b}: main printed {:?}, expected {:?}", mains, main_lines));
+            } else if after > allowed {
+                bad = Some(format!("budget {b}: {after} task lines were printed after main's last line (at most {allowed} can come from steps taken before the program stops)"));
+            }
+            if bad.is_some() {
+                break;
+            }
+        }
+        let fam = name.split('/').nth(1).unwrap_or("");
+        match bad {
+            None => ctx.count(&format!("task-template:{fam}:ok")),
+            Some(why) => {
+                ctx.count(&format!("task-template:{fam}:FAILS"));
+                ctx.spec_fail(format!("{name}: a failing `!` in main must stop the program at once (and a handled `?` must not), also while tasks are running: {why}\n{src}"));
+            }
         }
     }
 
